@@ -43,6 +43,7 @@ type ReplayFile struct {
 	Fingerprint string   `json:"fingerprint"`
 	Log         []string `json:"log"`
 	Crash       bool     `json:"crash,omitempty"`
+	FlakyReplay bool     `json:"flaky_replay,omitempty"`
 }
 
 type sample struct {
@@ -337,6 +338,9 @@ func mainReplay(t *testing.T, prop string, sc Scenario) {
 		}
 	}
 	o := runOnce(t, sc, tape, rf.Tier, rf.K)
+	for attempt := 0; attempt < 5 && rf.Decisions != nil && rf.Class != "" && o.class != rf.Class; attempt++ {
+		o = runOnce(t, sc, NewReplayTape(rf.Decisions), rf.Tier, rf.K)
+	}
 	if os.Getenv("VERIF_VERBOSE") != "" {
 		for _, l := range o.run.logCopy() {
 			fmt.Println("  |", l)
@@ -471,6 +475,9 @@ func mainSearch(t *testing.T, prop string, sc Scenario, tier string) {
 				minVals, used := minimise(t, sc, tier, vals, o.class, sc.MinBudget)
 				// confirm
 				oc := runOnce(t, sc, NewReplayTape(minVals), tier, -1)
+				for attempt := 0; attempt < 3 && oc.class != o.class; attempt++ {
+					oc = runOnce(t, sc, NewReplayTape(minVals), tier, -1)
+				}
 				if oc.class == o.class {
 					rf.Decisions = minVals
 					rf.Minimised = true
@@ -483,6 +490,14 @@ func mainSearch(t *testing.T, prop string, sc Scenario, tier string) {
 				// final in-process confirmation + labels + log of the replayed run
 				rt := NewReplayTape(rf.Decisions)
 				oc := runOnce(t, sc, rt, tier, -1)
+				// a violation whose manifestation depends on something the tape
+				// cannot pin inside the code under test (Go map iteration order)
+				// may need several attempts; it is reported only if it reproduces
+				for attempt := 0; attempt < 4 && oc.class != o.class; attempt++ {
+					rt = NewReplayTape(rf.Decisions)
+					oc = runOnce(t, sc, rt, tier, -1)
+					rf.FlakyReplay = true
+				}
 				if oc.class != o.class {
 					// not reproducible from its own decision list: harness
 					// nondeterminism. Report as such; driver turns it into exit 2.
